@@ -93,9 +93,6 @@ impl Rng {
         }
     }
 
-    pub fn fork(&mut self) -> Rng {
-        Rng::new(self.next_u64())
-    }
 }
 
 /// 128-bit digest (two independent FNV-1a style 64-bit lanes with different offsets/primes and a
